@@ -24,6 +24,8 @@ use std::sync::atomic::Ordering;
 
 static ARMED: AtomicBool = AtomicBool::new(false);
 static OPS: AtomicU64 = AtomicU64::new(0);
+// the two tests share the crash-point switches above: one at a time
+static ONE_AT_A_TIME: std::sync::Mutex<()> = std::sync::Mutex::new(());
 
 fn wal_name(name: &str) -> String {
     let pos = name.rfind('/').map(|p| p + 1).unwrap_or(0);
@@ -157,6 +159,7 @@ fn crash_image_of_other_db(target: &str) {
 
 #[test]
 fn backup_restored_over_a_crashed_database_is_the_backup() {
+    let _guard = ONE_AT_A_TIME.lock().unwrap_or_else(|e| e.into_inner());
     let dir = std::env::temp_dir().join(format!("agdb_replay_c05_restore_{}", std::process::id()));
     let _ = std::fs::remove_dir_all(&dir);
     std::fs::create_dir_all(&dir).unwrap();
@@ -190,4 +193,35 @@ fn backup_restored_over_a_crashed_database_is_the_backup() {
 
     assert_eq!(restored.as_deref().ok(), Some(expected.as_str()), "backup() over a crashed database");
     assert_eq!(copied.as_deref().ok(), Some(expected.as_str()), "copy() over a crashed database");
+}
+
+#[test]
+fn memory_backup_restored_over_a_crashed_database_is_the_backup() {
+    let _guard = ONE_AT_A_TIME.lock().unwrap_or_else(|e| e.into_inner());
+    let dir = std::env::temp_dir().join(format!("agdb_replay_c05_restore_mem_{}", std::process::id()));
+    let _ = std::fs::remove_dir_all(&dir);
+    std::fs::create_dir_all(&dir).unwrap();
+    let main = dir.join("main.agdb").to_str().unwrap().to_string();
+
+    crash_image_of_other_db(&main);
+
+    let mut db = agdb::DbMemory::new("memory").unwrap();
+    db.exec_mut(
+        QueryBuilder::insert()
+            .nodes()
+            .aliases(["a", "b", "c"])
+            .values([[("name", "a").into()], [("name", "b").into()], [("name", "c").into()]])
+            .query(),
+    )
+    .unwrap();
+    db.exec_mut(QueryBuilder::insert().edges().from("a").to(["b", "c"]).query())
+        .unwrap();
+    let expected = dump(&db);
+
+    // the in-memory database dumps itself over the crashed file; the file is then opened by the file variant
+    db.backup(&main).unwrap();
+    let restored = DbFile::new(&main).map(|d| dump(&d));
+    let _ = std::fs::remove_dir_all(&dir);
+
+    assert_eq!(restored.as_deref().ok(), Some(expected.as_str()), "DbMemory::backup() over a crashed database");
 }
